@@ -182,6 +182,10 @@ End ==
   /\ l <= N /\ Rec[l].ev = "end" /\ m.active
   /\ viol' = viol \cup (IF m.b.op = "enc" THEN EncEnd(Rec[l], m) ELSE DecEnd(Rec[l], m))
                   \cup HeapIndependentOfLength(m)
+                  \* the stretch between the last I/O call and the return (e.g. a buffer sized by a header field just read)
+                  \cup (IF "heap" \in DOMAIN Rec[l]
+                        THEN Flag(Rec[l].heap <= m.b.heapk, IF m.b.op = "enc" THEN "E5_heap_not_constant" ELSE "D8_heap_not_constant")
+                        ELSE {})
                   \cup Flag(Rec[l].cons = m.cons /\ Rec[l].acc = m.acc, "TOOL_counts")
   /\ m' = [m EXCEPT !.ended = TRUE]
   /\ l' = l + 1
